@@ -739,17 +739,22 @@ fn buildable(t: &ETree) -> bool { matches!(typ(t), Ok((w, _)) if w != World::I) 
 
 // ------------------------------------------------------------------------------------------- stream / format adapters
 type Seen = Rc<RefCell<Vec<(u32, Rec)>>>;
+/// terminals numbered 256 and up fail (after recording) with their number
+fn term_result(id: u32) -> Result<(), IoStreamError> {
+    if id >= 256 { Err(IoStreamError::Validation(ValidationError::invalid(format!("t{id}")))) } else { Ok(()) }
+}
+thread_local! { static LAST_RESULT: RefCell<Option<u32>> = RefCell::new(None); }
 /// terminal EntryIoStream
 struct RecS { id: u32, seen: Seen }
 impl EntryIoStream for RecS {
-    fn next(&mut self, entry: &impl Entry) -> Result<(), IoStreamError> { let r = record(entry); self.seen.borrow_mut().push((self.id, r)); Ok(()) }
+    fn next(&mut self, entry: &impl Entry) -> Result<(), IoStreamError> { let r = record(entry); self.seen.borrow_mut().push((self.id, r)); term_result(self.id) }
     fn flush(&mut self) -> std::io::Result<()> { Ok(()) }
 }
 /// terminal Format
 struct RecF { id: u32, seen: Seen }
 impl Format for RecF {
     fn format(&mut self, entry: &impl Entry, _output: &mut impl std::io::Write) -> Result<(), IoStreamError> {
-        let r = record(entry); self.seen.borrow_mut().push((self.id, r)); Ok(())
+        let r = record(entry); self.seen.borrow_mut().push((self.id, r)); term_result(self.id)
     }
 }
 #[derive(Clone, Debug)]
@@ -777,7 +782,13 @@ struct SS<D>(PhantomData<D>);
 type STop = SS<SS<SZ>>;
 const SDEPTH: usize = 2;
 fn feed<S: EntryIoStream, E: Entry>(mut s: S, e: &E) {
-    if catch(|| { let _ = s.next(e); let _ = s.flush(); }).is_none() { /* a panic inside the terminal is recorded there */ }
+    let r = catch(|| { let r = s.next(e); let _ = s.flush(); r });
+    let code = match r {
+        Some(Ok(())) => None,
+        Some(Err(err)) => Some(err.to_string().trim_start_matches('t').parse::<u32>().unwrap_or(0xeeee)),
+        None => Some(0xffff),
+    };
+    LAST_RESULT.with(|l| *l.borrow_mut() = code);
 }
 impl SDepth for SZ {
     fn st<S: EntryIoStream, E: Entry>(s: S, ws: &[SW], _seen: &Seen, e: &E) { assert!(ws.is_empty(), "harness: stream chain too deep"); feed(s, e) }
@@ -870,7 +881,8 @@ pub fn exec(case: &Sx) -> (Sx, bool) {
             let t = dec_etree(case.arg(1));
             let seen = run_stream(&s, &t);
             let nt = seen.iter().any(|(_, r)| !r.items.is_empty());
-            (Sx::L(seen.iter().map(|(id, r)| Sx::L(vec![sx::n(*id), enc_rec(r)])).collect()), nt)
+            let res = LAST_RESULT.with(|l| l.borrow_mut().take());
+            (Sx::L(vec![sx::opt(res.map(sx::n)), Sx::L(seen.iter().map(|(id, r)| Sx::L(vec![sx::n(*id), enc_rec(r)])).collect())]), nt)
         }
     });
     free_leaks();
@@ -1002,7 +1014,7 @@ fn g_tree(rng: &mut Rng, family: u8, panics: bool, budget: usize) -> ETree {
     t
 }
 fn g_stream(rng: &mut Rng, family: u8) -> STree {
-    let mut s = STree::Term(0);
+    let mut s = STree::Term(if rng.chance(1, 6) { 256 } else { 0 });
     let n = rng.range(0, SDEPTH as u64) as usize;
     let mut format = rng.chance(1, 2) && n >= 1;
     let mut next_id = 1;
@@ -1015,7 +1027,7 @@ fn g_stream(rng: &mut Rng, family: u8) -> STree {
             0 => STree::MergeGlobals(b, globals(rng)),
             1 => STree::MergeGDims(b, g_dims(rng, 2), g_deny(rng)),
             2 => STree::Force(b, g_force(rng, family)),
-            _ => { next_id += 1; STree::Tee(b, Box::new(STree::Term(next_id - 1))) }
+            _ => { next_id += 1; STree::Tee(b, Box::new(STree::Term(next_id - 1 + if rng.chance(1, 3) { 256 } else { 0 }))) }
         };
     }
     s
@@ -1182,6 +1194,7 @@ pub fn run(ctx: &Ctx) {
         smenu.push(Box::new(|s| STree::Force(Box::new(s), Flag::Emf(1))));
         smenu.push(Box::new(|s| STree::Force(Box::new(s), Flag::User(2))));
         smenu.push(Box::new(|s| STree::Tee(Box::new(s), Box::new(STree::Term(9)))));
+        smenu.push(Box::new(|s| STree::Tee(Box::new(s), Box::new(STree::Term(300)))));
         smenu.push(Box::new(|s| STree::OutputTo(Box::new(s))));
         fn s_ok(s: &STree, above_output: bool, depth: usize) -> bool {
             // below an output_to only Format adapters (merge_globals, merge_global_dimensions); one output_to at most
@@ -1196,7 +1209,8 @@ pub fn run(ctx: &Ctx) {
         fn has_output(s: &STree) -> bool { match s { STree::Term(_) => false, STree::OutputTo(_) => true, STree::MergeGlobals(s, _) | STree::MergeGDims(s, _, _) | STree::Force(s, _) | STree::Tee(s, _) => has_output(s) } }
         fn format_only(s: &STree) -> bool { match s { STree::Term(_) => true, STree::MergeGlobals(s, _) | STree::MergeGDims(s, _, _) => format_only(s), _ => false } }
         fn below_needs_format(_s: &STree) -> bool { false }
-        let mut all = vec![STree::Term(0)];
+        let mut all = vec![STree::Term(0), STree::Term(256)];
+        sequences(&STree::Term(256), &smenu, SDEPTH, &|s| s_ok(s, false, 0), &mut all);
         sequences(&STree::Term(0), &smenu, SDEPTH, &|s| s_ok(s, false, 0), &mut all);
         let entries = [rep_plain(), ETree::Boxed(Box::new(ETree::Force(Box::new(rep_plain()), Flag::Emf(0))))];
         for s in &all { for e in &entries { emit_stream(&mut out, s, e, "exhaustive_stream_chains"); } }
